@@ -138,6 +138,38 @@ start :: fn do
     pr(1)
 end
 '''
+# a named impure function that was first handed to `fn`-typed parameters (one level, two levels, several callers) keeps its purity
+T_PURE_TYPE_AFTER_FN_USE = '''
+imp :: fn x: int -> int do ret x + 1 end
+pur :: pu x: int -> int do ret x + 1 end
+each :: fn f: fn int -> int, v: int -> int do ret f(v) end
+log_each :: fn f: fn int -> int, v: int -> int do ret each(f, v) end
+third :: fn f: fn int -> int -> int do ret f(3) end
+takes :: fn q: pu int -> int -> int do ret q(1) end
+start :: fn do
+    __alt1(fn do
+               pr(log_each(imp, 1))
+               pr(takes(__ealt2(pur, imp)))
+           end,
+           fn do
+               pr(each(imp, 1))
+               pr(third(imp))
+               pr(log_each(imp, 2))
+               pr(takes(__ealt2(pur, imp)))
+           end,
+           fn do
+               pr(takes(__ealt2(pur, imp)))
+               pr(log_each(imp, 1))
+           end,
+           fn do
+               pr(each(pur, 1))
+               pr(each(imp, 1))
+               pr(log_each(pur, 1))
+               pr(takes(__ealt2(pur, imp)))
+           end)
+    pr(1)
+end
+'''
 # externals: their purity is what their declaration says
 T_PURE_TYPE_EXTERNAL = '''
 ximp: fn -> int : external
@@ -216,6 +248,7 @@ def run(tier):
     jobs = [{"name": "assign_to_constant", "core": "assignment-target", "module": "checks.C04", "spec": "assign", "text": T_ASSIGN, "files": files}] + [{"name": "pure_function_body@" + n, "core": "pure-body(%s)" % n, "module": "checks.C04", "spec": "pure", "text": pure_text(body)} for n, body in NESTS] + [
             {"name": "pure_type_given_impure", "core": "pure-type", "module": "checks.C04", "spec": "pure_type", "text": T_PURE_TYPE},
             {"name": "pure_type_given_impure_through_fn_annotation", "core": "pure-type-through-fn-annotated-alias", "module": "checks.C04", "spec": "pure_type", "text": T_PURE_TYPE_FN_ALIAS},
+            {"name": "pure_type_given_impure_after_use_as_fn", "core": "pure-type-after-use-as-fn", "module": "checks.C04", "spec": "pure_type", "text": T_PURE_TYPE_AFTER_FN_USE},
             {"name": "pure_type_given_impure_external", "core": "pure-type-given-external", "module": "checks.C04", "spec": "pure_type", "text": T_PURE_TYPE_EXTERNAL}] + \
            [{"name": "nested_pure_function@" + n, "core": "nested-pure(%s)" % n, "module": "checks.C04", "spec": "nested", "text": nested_text(b)} for n, b in NESTED]
     return ktcrun.run_check("C04", tier, jobs, t0, ktcrun.KTC_FUNCTIONS,
